@@ -21,6 +21,10 @@ theorem ym_of_normal (Y M y m : Int) (h1 : 1 ≤ m) (h2 : m ≤ 12) (h : 12 * Y 
     Gen.ym Y M = (y, m) := by
   unfold Gen.ym; simp only [Prod.mk.injEq]; omega
 
+/-- `ym` depends on the month count `12*y + m` only -/
+theorem ym_congr (Y M Y' M' : Int) (h : 12 * Y + M = 12 * Y' + M') : Gen.ym Y M = Gen.ym Y' M' := by
+  unfold Gen.ym; simp only [Prod.mk.injEq]; omega
+
 /-- `(t.year, t.month, t.day)` of a date built from valid fields: any year 1..9999 -/
 theorem ymdOf_mkDate (y m d : Nat) (v : Valid y m d) : ymdOf (mkDate y m d) = ⟨y, m, d⟩ := by
   unfold ymdOf mkDate
